@@ -69,10 +69,21 @@ static double ll_dist(double lat1, double lon1, double lat2, double lon2) {
 // ------------------------------------------------------------------ library calls with outcome capture
 // outcome: 0 returned, 1 GeographicErr, 2 foreign exception, 3 fatal signal
 struct Out { int outcome = 0; std::string what; };
+// mc::crashed without the signal-mask save/restore (two system calls per library call, which dominate a 10^9-string
+// sweep).  Sound because mc::crash_install() installs its handlers with SA_NODEFER and an empty sa_mask: the signal mask
+// inside the handler equals the mask at the sigsetjmp, so nothing needs restoring.
+template <class F> static inline int crashed_fast(F f) {
+  mc::crash_install();
+  if (sigsetjmp(mc::crash_jmp(), 0)) return mc::crash_sig();
+  mc::crash_armed() = 1;
+  try { f(); } catch (...) { mc::crash_armed() = 0; throw; }
+  mc::crash_armed() = 0;
+  return 0;
+}
 template <class F> static Out guard(F f, bool contain_signals) {
   Out o;
   try {
-    if (contain_signals) { int sg = mc::crashed(f); if (sg) { o.outcome = 3; o.what = "signal " + std::to_string(sg); } }
+    if (contain_signals) { int sg = crashed_fast(f); if (sg) { o.outcome = 3; o.what = "signal " + std::to_string(sg); } }
     else f();
   }
   catch (const GeographicErr& e) { o.outcome = 1; o.what = e.what(); }
@@ -324,9 +335,8 @@ static void check_transfer(Ctx& ctx, int zi, bool ni, double x, double y, int zo
 // ------------------------------------------------------------------ (e) zone strings
 static void check_zone_string(Ctx& ctx, const std::string& s) {
   Ctx::Case cs(ctx);
-  std::string key = "DecodeZone('" + printable(s) + "')";
-  mc::Fields F{{"string", printable(s)}, {"len", fmti((long long)s.size())}};
-  auto FF = [&](const char* kind) { mc::Fields g = F; g.push_back({"kind", kind}); return g; };
+  struct LazyKey { const std::string& s; operator std::string() const { return "DecodeZone('" + printable(s) + "')"; } } key{s};   // built only on failure
+  auto FF = [&](const char* kind) { return mc::Fields{{"string", printable(s)}, {"len", fmti((long long)s.size())}, {"kind", kind}}; };
   utmref::ZoneStr e = utmref::decode_zone(s);
   for (int init = 0; init < 2; ++init) {
     int zone = ISENT; bool northp = init;
@@ -352,7 +362,7 @@ static void check_zone_string(Ctx& ctx, const std::string& s) {
       }
     }
   }
-  if (ctx.want_sample()) ctx.sample(key + (e.ok ? " legal" : " malformed"));
+  if (ctx.want_sample()) ctx.sample(std::string(key) + (e.ok ? " legal" : " malformed"));
 }
 // all strings of length <= L over al; unit = first two characters
 static void enum_strings(Ctx& ctx, const std::string& al, int L) {
@@ -363,15 +373,29 @@ static void enum_strings(Ctx& ctx, const std::string& al, int L) {
     if (!ctx.take()) continue;
     std::string pre; pre += al[i]; pre += al[j];
     check_zone_string(ctx, pre);
-    std::vector<int> idx;
+    std::vector<int> idx; std::string s;
     for (int len = 1; len <= L - 2; ++len) {
-      idx.assign(len, 0);
+      idx.assign(len, 0); s = pre; s.append(len, al[0]);
       while (true) {
-        std::string s = pre; for (int k : idx) s += al[k];
         check_zone_string(ctx, s);
-        int k = len - 1; while (k >= 0 && ++idx[k] == n) { idx[k] = 0; --k; }
+        int k = len - 1; while (k >= 0 && ++idx[k] == n) { idx[k] = 0; s[2 + k] = al[0]; --k; }
         if (k < 0) break;
+        s[2 + k] = al[idx[k]];
       }
+    }
+  }
+}
+// all strings of length exactly L over al; unit = first two characters
+static void enum_strings_exact(Ctx& ctx, const std::string& al, int L) {
+  int n = (int)al.size();
+  for (int i = 0; i < n; ++i) for (int j = 0; j < n; ++j) {
+    if (!ctx.take()) continue;
+    int len = L - 2; std::vector<int> idx(len, 0); std::string s; s += al[i]; s += al[j]; s.append(len, al[0]);
+    while (true) {
+      check_zone_string(ctx, s);
+      int k = len - 1; while (k >= 0 && ++idx[k] == n) { idx[k] = 0; s[2 + k] = al[0]; --k; }
+      if (k < 0) break;
+      s[2 + k] = al[idx[k]];
     }
   }
 }
@@ -455,23 +479,26 @@ int main(int argc, char** argv) {
     std::vector<int> zones;
     if (T) for (int z = 1; z <= 60; ++z) zones.push_back(z); else zones = {1, 30, 31, 32, 33, 37, 60};
     std::vector<double> lats;
-    for (int k = -90; k <= 90; k += (T ? 1 : 5)) lats.push_back(k);
+    if (T) for (int k = -180; k <= 180; ++k) lats.push_back(k * 0.5); else for (int k = -90; k <= 90; k += 5) lats.push_back(k);
+    if (T) for (int b = 0; b <= 19; ++b) { double x = -80 + 8 * b; lats.push_back(std::nextafter(x, INFINITY)); lats.push_back(std::nextafter(x, -INFINITY)); }
     { std::vector<double> e{-80, 84, -84, 80, 56, 64, 72, 70, -70};
       for (double x : e) { lats.push_back(x); lats.push_back(std::nextafter(x, INFINITY)); lats.push_back(std::nextafter(x, -INFINITY)); } }
     for (double x : {-0.0, 1e-9, -1e-9, 5e-324, -5e-324, 89.999999, -89.999999, 89.99999999999999, -89.99999999999999, 83.5, -79.5, 60.0, 75.0, 78.0, 82.7, -81.2}) lats.push_back(x);
     uniq(lats);
     std::vector<double> dl{0, 1, -1, 3, -3, 3 + 1e-9, 3 - 1e-9, -3 + 1e-9, -3 - 1e-9, 4.4, -4.4, 6, -6, 9, -9, 40, -40, 60, -60, 60.001, -60.001, 90, -90, 179, 180};
     ctx.bound("forward-lattice.zones", T ? "all 60 zones" : "zones 1, 30, 31, 32, 33, 37, 60");
-    ctx.bound("forward-lattice.lat", fmti((long long)lats.size()) + " latitudes: every " + (T ? "1" : "5") + " degrees in [-90,90]; +-80, +-84, 56, 64, 72, +-70 each +-1 ulp; +-0, denormals, near-pole values");
+    ctx.bound("forward-lattice.lat", fmti((long long)lats.size()) + " latitudes: every " + (T ? "half degree" : "5 degrees") + " in [-90,90]; " + (T ? "every band edge -80+8k, " : "") + "+-80, +-84, 56, 64, 72, +-70 each +-1 ulp; +-0, denormals, near-pole values");
     ctx.bound("forward-lattice.dlon", fmti((long long)dl.size()) + " offsets from the zone's central meridian (0, +-1, +-3, +-3+-1e-9, +-4.4, +-6, +-9, +-40, +-60, +-60.001, +-90, 179, 180), the zone-edge ones also +360 and -720");
-    ctx.bound("forward-lattice.setzone", "STANDARD, UTM, MATCH, INVALID, UPS (0), zone, zone-1, zone+1 (cyclic), 61, -5; mgrslimits in {false, true}");
+    ctx.bound("forward-lattice.setzone", T ? "every setzone in [-5, 61] (all pseudo-zones, UPS, all 60 explicit zones, two illegal values); mgrslimits in {false, true}" : "STANDARD, UTM, MATCH, INVALID, UPS (0), zone, zone-1, zone+1 (cyclic), 61, -5; mgrslimits in {false, true}");
     for (int z : zones) for (double lat : lats) {
       if (!ctx.take()) continue;
       double lon0 = utmref::central_meridian(z);
       std::vector<double> lons;
       for (double d : dl) { double l = lon0 + d; lons.push_back(l); if (std::fabs(d) <= 3.5) { lons.push_back(l + 360); lons.push_back(l - 720); } }
       int zm = z == 1 ? 60 : z - 1, zp = z == 60 ? 1 : z + 1;
-      for (double lon : lons) for (int sz : {-1, -2, -3, -4, 0, z, zm, zp, 61, -5}) for (int mg = 0; mg < 2; ++mg)
+      std::vector<int> szs{-1, -2, -3, -4, 0, z, zm, zp, 61, -5};
+      if (T) { szs.clear(); for (int q = -5; q <= 61; ++q) szs.push_back(q); }
+      for (double lon : lons) for (int sz : szs) for (int mg = 0; mg < 2; ++mg)
         check_forward(ctx, lat, lon, sz, mg, "");
     }
   }
@@ -499,13 +526,16 @@ int main(int argc, char** argv) {
     }
     // a finer sweep through the interior (closure and agreement with the standard parameters)
     ctx.sub("reverse-lattice");
-    int step = T ? 25 : 100;
-    ctx.bound("reverse-lattice", std::string("zone in {1,31,32,60}: x every ") + fmti(step) + " km in [0,1000], y every " + fmti(step * 4) + " km over the whole hemisphere range; zone 0: x,y every " + fmti(step) + " km; both hemispheres, both limits");
-    for (int zone : {0, 1, 31, 32, 60}) for (int np = 0; np < 2; ++np) {
+    ctx.bound("reverse-lattice", T ? "zones 0 (UPS), 1, 31, 32, 60: x and y every 10 km over the whole legal rectangle; the other 56 zones: x every 50 km, y every 200 km; both hemispheres, both limits"
+                                    : "zone in {1,31,32,60}: x every 100 km in [0,1000], y every 400 km over the whole hemisphere range; zone 0: x,y every 100 km; both hemispheres, both limits");
+    for (int zone = 0; zone <= 60; ++zone) for (int np = 0; np < 2; ++np) {
+      bool rep = zone == 0 || zone == 1 || zone == 31 || zone == 32 || zone == 60;
+      if (!T && !rep) continue;
+      int xstep = T ? (rep ? 10 : 50) : 100, ystep = T ? (rep ? 10 : 200) : (zone ? 400 : 100);
       utmref::Rect R = utmref::rectangle(zone != 0, np, false);
-      for (double x = R.xmin; x <= R.xmax; x += step * km) {
+      for (double x = R.xmin; x <= R.xmax; x += xstep * km) {
         if (!ctx.take()) continue;
-        for (double y = R.ymin; y <= R.ymax; y += (zone ? 4 : 1) * step * km) for (int mg = 0; mg < 2; ++mg) check_reverse(ctx, zone, np, x, y, mg);
+        for (double y = R.ymin; y <= R.ymax; y += ystep * km) for (int mg = 0; mg < 2; ++mg) check_reverse(ctx, zone, np, x, y, mg);
       }
     }
   }
@@ -540,10 +570,14 @@ int main(int argc, char** argv) {
   // ================================================================= (d) Transfer
   {
     ctx.sub("transfer");
-    ctx.bound("transfer", "zonein in {0,1,31,32,60,INVALID,61,-1} x zoneout in {zonein, zonein+-1, 0, MATCH, STANDARD, UTM, INVALID, 61, -5} x 2 x 2 hemispheres x a grid of in-range, edge and out-of-range (x,y)");
+    ctx.bound("transfer", T ? "ALL pairs zonein in [-4 (INVALID), 61] minus the pseudo-zones -3,-2 (+ -1) x zoneout in [-5, 61] x 2 x 2 hemispheres x a grid of 130 (UTM) / 64 (UPS) in-range, edge and out-of-range (x,y)"
+                             : "zonein in {0,1,31,32,60,INVALID,61,-1} x zoneout in {zonein, zonein+-1, 0, MATCH, STANDARD, UTM, INVALID, 61, -5} x 2 x 2 hemispheres x a grid of in-range, edge and out-of-range (x,y)");
     const double km = 1000;
-    for (int zi : {0, 1, 31, 32, 60, -4, 61, -1}) for (int ni = 0; ni < 2; ++ni) {
+    std::vector<int> zis{0, 1, 31, 32, 60, -4, 61, -1};
+    if (T) { zis.clear(); for (int q = 0; q <= 61; ++q) zis.push_back(q); zis.push_back(-4); zis.push_back(-1); }
+    for (int zi : zis) for (int ni = 0; ni < 2; ++ni) {
       std::vector<int> zos{zi, zi == 60 ? 1 : zi + 1, zi <= 1 ? 60 : zi - 1, 0, -3, -1, -2, -4, 61, -5};
+      if (T) { zos.clear(); for (int q = -5; q <= 61; ++q) zos.push_back(q); }
       for (int zo : zos) for (int no = 0; no < 2; ++no) {
         if (!ctx.take()) continue;
         std::vector<double> xs, ys;
@@ -562,9 +596,10 @@ int main(int argc, char** argv) {
   {
     ctx.sub("zone-strings");
     std::string al = "01369nsNSorthuiv+- ";
-    int L = T ? 6 : 4;
-    ctx.bound("zone-strings", "all strings of length <= " + fmti(L) + " over the 19 characters '" + al + "'; all strings of length <= 3 over these + NUL, tab, 0xff, '.', 'e', 'x'; digits{0..3} x 60 words");
+    int L = T ? 7 : 4;
+    ctx.bound("zone-strings", "all strings of length <= " + fmti(L) + " over the 19 characters '" + al + "' (19^7 = 8.9e8 at length 7; the longest legal zone string has 7 characters)" + (T ? "; all strings of length 8 over the 8 characters '06nsorth' (any string longer than 7 characters must be rejected)" : "") + "; all strings of length <= 3 over the 19 + NUL, tab, 0xff, '.', 'e', 'x'; digits{0..3} x 60 words");
     enum_strings(ctx, al, L);
+    if (T) { ctx.sub("zone-strings-len8"); enum_strings_exact(ctx, "06nsorth", 8); }
     ctx.sub("zone-strings-special");
     { std::string al2 = al; al2 += '\0'; al2 += '\t'; al2 += '\xff'; al2 += '.'; al2 += 'e'; al2 += 'x'; enum_strings(ctx, al2, 3); }
     ctx.sub("zone-words");
